@@ -4,6 +4,7 @@ import HranoModel.Lemmas.DateRT
 import HranoModel.Lemmas.Merge
 import HranoModel.Lemmas.Walk
 import HranoModel.Model.Reports
+import HranoModel.Lemmas.Space
 /-
   Helper lemmas for C14: what `print` writes is a well-formed file in the sense of `Spec/Doc.lean`.
 -/
@@ -412,6 +413,255 @@ theorem walk_nodes (l : Layout) (hl : Date.roundTrips l = true) : ∀ (days : Li
       Elements.mergeDay_of_nodup _ (by rw [hnames]; exact hd.distinct)
     simp only [App.inInterval_none, if_true, hm]
     rfl
+
+end PrintDoc
+end Hrano
+
+/-! ## date texts as headings -/
+
+namespace Hrano
+namespace PrintDoc
+open Doc Num
+
+/-- the bytes of a numeric token are digits, and there is at least one -/
+theorem tokText_numeric (c : Civil) (t : LTok) (h : ∀ b, t ≠ .lit b) :
+    (∀ x ∈ Date.tokText c t, Bytes.isDigit x = true) ∧ Date.tokText c t ≠ [] := by
+  cases t with
+  | year4 => exact ⟨natPad_isDigit 4 c.y, by unfold Date.tokText Bytes.natPad; have := natDigits_ne_nil c.y; simp [this]⟩
+  | month2 => exact ⟨natPad_isDigit 2 c.m, by unfold Date.tokText Bytes.natPad; have := natDigits_ne_nil c.m; simp [this]⟩
+  | month1 => exact ⟨natDigits_isDigit c.m, natDigits_ne_nil c.m⟩
+  | day2 => exact ⟨natPad_isDigit 2 c.d, by unfold Date.tokText Bytes.natPad; have := natDigits_ne_nil c.d; simp [this]⟩
+  | day1 => exact ⟨natDigits_isDigit c.d, natDigits_ne_nil c.d⟩
+  | lit b => exact absurd rfl (h b)
+
+theorem numeric_first (c : Civil) (t : LTok) (h : ∀ b, t ≠ .lit b) (rest : Bytes) :
+    ∃ x xs, Date.tokText c t ++ rest = x :: xs ∧ PConst.trimText.contains x = false ∧ x ≠ cc := by
+  obtain ⟨hd, hne⟩ := tokText_numeric c t h
+  generalize Date.tokText c t = tt at hd hne
+  cases tt with
+  | nil => exact absurd rfl hne
+  | cons x xs =>
+    have hx := digit_outside x (hd x List.mem_cons_self)
+    refine ⟨x, xs ++ rest, rfl, hx.1, ?_⟩
+    have : 48 ≤ x.toNat ∧ x.toNat ≤ 57 := by simpa [Bytes.isDigit] using hd x List.mem_cons_self
+    intro hc; rw [hc] at this; revert this; decide
+
+theorem numeric_last (c : Civil) (t : LTok) (h : ∀ b, t ≠ .lit b) (pre : Bytes) :
+    ∃ ys y, pre ++ Date.tokText c t = ys ++ [y] ∧ PConst.trimText.contains y = false ∧ y ≠ 13 := by
+  obtain ⟨hd, hne⟩ := tokText_numeric c t h
+  generalize Date.tokText c t = tt at hd hne
+  obtain ⟨ys, y, hy⟩ : ∃ ys y, tt = ys ++ [y] := ⟨_, _, (List.dropLast_concat_getLast hne).symm⟩
+  have hx := digit_outside y (hd y (by rw [hy]; simp))
+  exact ⟨pre ++ ys, y, by rw [hy, List.append_assoc], hx.1, hx.2.2.2.1⟩
+
+/-- a separator byte that may stand at the start / at the end / inside a heading -/
+def litFirstOK (b : UInt8) : Bool := !PConst.trimText.contains b && b != cc
+def litLastOK (b : UInt8) : Bool := !PConst.trimText.contains b && b != 13
+
+/-- layouts whose date texts are legal headings: the first and last token are numbers or harmless separators, no
+    separator is a line feed -/
+def headingOK : Layout → Bool
+  | [] => false
+  | t :: ts =>
+    (match t with | .lit b => litFirstOK b | _ => true)
+    && (match (t :: ts).getLast? with | some (.lit b) => litLastOK b | _ => true)
+    && (t :: ts).all (fun t => match t with | .lit b => b != 10 | _ => true)
+
+theorem format_append (a b : Layout) (c : Civil) : Date.format (a ++ b) c = Date.format a c ++ Date.format b c := by
+  induction a with
+  | nil => simp [Date.format]
+  | cons t ts ih => rw [List.cons_append, Date.format_cons, Date.format_cons, ih, List.append_assoc]
+
+theorem format_noLF (l : Layout) (c : Civil) (h : l.all (fun t => match t with | .lit b => b != 10 | _ => true) = true) :
+    ∀ x ∈ Date.format l c, x ≠ 10 := by
+  induction l with
+  | nil => intro x hx; simp [Date.format] at hx
+  | cons t ts ih =>
+    intro x hx
+    simp only [List.all_cons, Bool.and_eq_true] at h
+    rw [Date.format_cons] at hx
+    rcases List.mem_append.mp hx with hx | hx
+    · cases t with
+      | lit b =>
+        simp only [Date.tokText, List.mem_singleton] at hx
+        subst hx
+        simpa using h.1
+      | _ =>
+        all_goals
+          first
+          | exact (digit_outside x ((tokText_numeric c _ (by intro b hb; cases hb)).1 x hx)).2.2.2.2
+    · exact ih h.2 x hx
+
+/-- **the date text of such a layout is a legal heading** (and holds no line feed) -/
+theorem format_nameOK (l : Layout) (c : Civil) (h : headingOK l = true) :
+    NameOK cc (Date.format l c) ∧ ∀ x ∈ Date.format l c, x ≠ 10 := by
+  cases l with
+  | nil => simp [headingOK] at h
+  | cons t ts =>
+    simp only [headingOK, Bool.and_eq_true] at h
+    obtain ⟨⟨hfirst, hlast⟩, hlf⟩ := h
+    refine ⟨⟨?_, ?_⟩, format_noLF (t :: ts) c hlf⟩
+    · -- first byte
+      rw [Date.format_cons]
+      cases t with
+      | lit b =>
+        simp only [litFirstOK, Bool.and_eq_true, Bool.not_eq_true', bne_iff_ne, ne_eq] at hfirst
+        exact ⟨b, Date.format ts c, rfl, hfirst.1, hfirst.2⟩
+      | _ => all_goals exact numeric_first c _ (by intro b hb; cases hb) _
+    · -- last byte
+      have hne : (t :: ts) ≠ [] := by simp
+      obtain ⟨ini, tl, hsplit⟩ : ∃ ini tl, t :: ts = ini ++ [tl] := ⟨_, _, (List.dropLast_concat_getLast hne).symm⟩
+      rw [hsplit] at hlast ⊢
+      rw [format_append, Date.format_cons]
+      simp only [List.getLast?_append, List.getLast?_singleton, Option.some_or] at hlast
+      have hnil : Date.format [] c = [] := rfl
+      rw [hnil, List.append_nil]
+      cases tl with
+      | lit b =>
+        simp only [litLastOK, Bool.and_eq_true, Bool.not_eq_true', bne_iff_ne, ne_eq] at hlast
+        exact ⟨Date.format ini c, b, by simp [Date.tokText], hlast.1, hlast.2⟩
+      | _ => all_goals exact numeric_last c _ (by intro b hb; cases hb) _
+
+example : (Date.parseLayout Facts.defaultDateFormat).map headingOK = some true := by decide
+
+end PrintDoc
+end Hrano
+
+/-! ## notes of the documented forms -/
+
+namespace Hrano
+namespace PrintDoc
+open Doc Bytes Parser
+
+/-- a piece of note text that the note reader leaves alone at both ends: it does not start with a space rune or `#`, and
+    does not end with a space rune, a byte the tokenizer trims, or `#` -/
+structure WordOK (s : Bytes) : Prop where
+  first : ∃ x xs, s = x :: xs ∧ (∀ z ∈ spaceLead, x ≠ z) ∧ x ≠ 35
+  last : ∃ ys y, s = ys ++ [y] ∧ (∀ z ∈ spaceTail, y ≠ z) ∧ PConst.trimText.contains y = false ∧ y ≠ 35
+
+theorem trimSpace_wordOK (s : Bytes) (h : WordOK s) : trimSpace s = s := by
+  obtain ⟨x, xs, hs1, hx, _⟩ := h.first
+  obtain ⟨ys, y, hs2, hy, _, _⟩ := h.last
+  unfold trimSpace
+  rw [hs1, trimSpaceLeft_stop x xs hx, ← hs1, hs2, trimSpaceRight_stop ys y hy]
+
+theorem trimSpace_blank_wordOK (s : Bytes) (h : WordOK s) : trimSpace (32 :: s) = s := by
+  have := trimSpace_wordOK s h
+  unfold trimSpace at this ⊢
+  rw [trimSpaceLeft_blank]; exact this
+
+theorem splitFirst_none (sep : UInt8) : ∀ s : Bytes, (∀ b ∈ s, b ≠ sep) → splitFirst sep s = none
+  | [], _ => rfl
+  | c :: r, h => by
+    have hc : (c == sep) = false := by
+      cases hh : c == sep
+      · rfl
+      · exact absurd (eq_of_beq hh) (h c List.mem_cons_self)
+    rw [splitFirst]
+    simp only [hc, Bool.false_eq_true, if_false]
+    rw [splitFirst_none sep r (fun b hb => h b (List.mem_cons_of_mem _ hb))]
+
+theorem splitFirst_at (sep : UInt8) (post : Bytes) : ∀ pre : Bytes, (∀ b ∈ pre, b ≠ sep) → splitFirst sep (pre ++ sep :: post) = some (pre, post)
+  | [], _ => by simp [splitFirst]
+  | c :: r, h => by
+    have hc : (c == sep) = false := by
+      cases hh : c == sep
+      · rfl
+      · exact absurd (eq_of_beq hh) (h c List.mem_cons_self)
+    rw [List.cons_append, splitFirst]
+    simp only [hc, Bool.false_eq_true, if_false]
+    rw [splitFirst_at sep post r (fun b hb => h b (List.mem_cons_of_mem _ hb))]
+
+theorem mem32 : (32 : UInt8) ∈ spaceLead ∧ (9 : UInt8) ∈ spaceLead ∧ (32 : UInt8) ∈ spaceTail ∧ (9 : UInt8) ∈ spaceTail
+    ∧ (13 : UInt8) ∈ spaceTail ∧ (10 : UInt8) ∈ spaceTail := by decide
+
+/-- the core of a printed note line: `#`, a blank, then text that ends in a byte the tokenizer keeps -/
+theorem trim_note_line (body : Bytes) (hend : ∃ ys y, body = ys ++ [y] ∧ PConst.trimText.contains y = false) :
+    trim PConst.trimText ([32, 32] ++ cc :: ([32] ++ body)) = 35 :: 32 :: body := by
+  obtain ⟨ys, y, hb, hy⟩ := hend
+  have := trim_core PConst.trimText [32, 32] (35 :: 32 :: body) []
+    (by intro b hb'; simp only [List.mem_cons, List.not_mem_nil, or_false] at hb'; rcases hb' with rfl | rfl <;> decide)
+    (by intro b hb'; cases hb')
+    ⟨35, 32 :: body, rfl, by decide⟩
+    ⟨35 :: 32 :: ys, y, by rw [hb]; rfl, hy⟩
+  simpa [cc, PConst.commentChar, Facts.commentChar] using this
+
+theorem trim_hash (body : Bytes) (hend : ∃ ys y, body = ys ++ [y] ∧ y ≠ 35) : trim [35] (35 :: 32 :: body) = 32 :: body := by
+  obtain ⟨ys, y, hb, hy⟩ := hend
+  have hy' : ([35] : List UInt8).contains y = false := by
+    simp only [List.contains, List.elem]
+    cases hh : y == 35
+    · rfl
+    · exact absurd (eq_of_beq hh) hy
+  have := trim_core [35] [35] (32 :: body) [] (by intro b hb'; simp only [List.mem_singleton] at hb'; subst hb'; decide)
+    (by intro b hb'; cases hb') ⟨32, body, rfl, by decide⟩ ⟨32 :: ys, y, by rw [hb]; rfl, hy'⟩
+  simpa using this
+
+/-- a text note `# text` survives printing and reading -/
+theorem note_text_ok (v : Bytes) (hw : WordOK v) (hc : ∀ b ∈ v, b ≠ 58) (hlf : ∀ b ∈ v, b ≠ 10) : NoteOK ⟨[], v⟩ := by
+  obtain ⟨ys, y, hv, hy, hyt, hy35⟩ := hw.last
+  refine ⟨?_, ?_, ?_⟩
+  · unfold reread noteText
+    simp only [List.isEmpty_nil, Bool.not_true, Bool.false_eq_true, if_false]
+    rw [trim_note_line v ⟨ys, y, hv, hyt⟩]
+    unfold metadataPair
+    simp only []
+    rw [trim_hash v ⟨ys, y, hv, hy35⟩, trimSpace_blank_wordOK v hw, splitFirst_none 58 v hc]
+  · intro b hb
+    simp only [noteText, List.isEmpty_nil, Bool.not_true, Bool.false_eq_true, if_false, List.singleton_append, List.mem_cons] at hb
+    rcases hb with rfl | hb
+    · decide
+    · exact hlf b hb
+  · simp only [noteText, List.isEmpty_nil, Bool.not_true, Bool.false_eq_true, if_false]
+    rw [hv, ← List.append_assoc, List.getLast?_append]
+    simp only [List.getLast?_singleton, Option.some_or, ne_eq, Option.some.injEq]
+    exact hy 13 mem32.2.2.2.2.1
+
+/-- a note `# name: value` survives printing and reading -/
+theorem note_named_ok (n v : Bytes) (hn : WordOK n) (hv : WordOK v) (hcn : ∀ b ∈ n, b ≠ 58)
+    (hlfn : ∀ b ∈ n, b ≠ 10) (hlfv : ∀ b ∈ v, b ≠ 10) : NoteOK ⟨n, v⟩ := by
+  obtain ⟨x, xs, hn1, hx, hx35⟩ := hn.first
+  obtain ⟨ns, nl, hn2, hnl, _, hnl35⟩ := hn.last
+  obtain ⟨ys, y, hv2, hy, hyt, hy35⟩ := hv.last
+  have hne : n.isEmpty = false := by rw [hn1]; rfl
+  have hbody : [32] ++ n ++ [58, 32] ++ v = [32] ++ (n ++ 58 :: 32 :: v) := by simp
+  refine ⟨?_, ?_, ?_⟩
+  · unfold reread noteText
+    simp only [hne, Bool.not_false, if_true]
+    rw [hbody, trim_note_line (n ++ 58 :: 32 :: v) ⟨n ++ 58 :: 32 :: ys, y, by rw [hv2]; simp, hyt⟩]
+    unfold metadataPair
+    simp only []
+    rw [trim_hash (n ++ 58 :: 32 :: v) ⟨n ++ 58 :: 32 :: ys, y, by rw [hv2]; simp, hy35⟩]
+    -- the whole text starts like the name and ends like the value
+    have hwhole : WordOK (n ++ 58 :: 32 :: v) :=
+      ⟨⟨x, xs ++ 58 :: 32 :: v, by rw [hn1]; rfl, hx, hx35⟩, ⟨n ++ 58 :: 32 :: ys, y, by rw [hv2]; simp, hy, hyt, hy35⟩⟩
+    rw [trimSpace_blank_wordOK _ hwhole, splitFirst_at 58 (32 :: v) n hcn]
+    simp only []
+    have hc3 : ∀ z : UInt8, z ≠ 35 → z ≠ 32 → z ≠ 9 → ([35, 32, 9] : List UInt8).contains z = false := by
+      intro z h1 h2 h3
+      simp only [List.contains, List.elem]
+      have e : ∀ w : UInt8, z ≠ w → (z == w) = false := fun w hw => by
+        cases hh : z == w
+        · rfl
+        · exact absurd (eq_of_beq hh) hw
+      simp [e 35 h1, e 32 h2, e 9 h3]
+    have htn := trim_core [35, 32, 9] [] n [] (by intro b hb; cases hb) (by intro b hb; cases hb)
+      ⟨x, xs, hn1, hc3 x hx35 (hx 32 mem32.1) (hx 9 mem32.2.1)⟩
+      ⟨ns, nl, hn2, hc3 nl hnl35 (hnl 32 mem32.2.2.1) (hnl 9 mem32.2.2.2.1)⟩
+    simp only [List.nil_append, List.append_nil] at htn
+    rw [htn, trimSpace_blank_wordOK v hv]
+  · intro b hb
+    simp only [noteText, hne, Bool.not_false, if_true, List.mem_append, List.mem_cons, List.not_mem_nil, or_false] at hb
+    rcases hb with ((rfl | hb) | (rfl | rfl)) | hb
+    · decide
+    · exact hlfn b hb
+    · decide
+    · decide
+    · exact hlfv b hb
+  · simp only [noteText, hne, Bool.not_false, if_true]
+    rw [hv2, ← List.append_assoc, List.getLast?_append]
+    simp only [List.getLast?_singleton, Option.some_or, ne_eq, Option.some.injEq]
+    exact hy 13 mem32.2.2.2.2.1
 
 end PrintDoc
 end Hrano
